@@ -66,7 +66,7 @@ inductive Reader
   | read                               -- blocked in conn.ReadMessage
   | send (i : SubId) (p : Payload)     -- blocked in the forwarder's `dataChan <- resp`
   | herr                               -- about to run handleErr (needs the client mutex)
-  | herrSend                           -- holds the mutex, blocked on the unbuffered errChan send
+  | herrSend                           -- holds the mutex, about to send on errChan (yield point `handleErr.send`)
   | done
 deriving DecidableEq, Repr
 
@@ -89,7 +89,8 @@ deriving DecidableEq, Repr
 
 structure World where
   subs : List Sub := []
-  frames : List Frame := [.init]      -- a started client has written connection_init and read the ack
+  frames : List Frame := [.init]      -- frames handed to the connection (a started client has written connection_init and read the ack)
+  written : List Frame := [.init]     -- frames whose write returned nil, in completion order
   isClosing : Bool := false
   connCloses : Nat := 0
   errChanCloses : Nat := 0
@@ -99,6 +100,9 @@ structure World where
   reader : Reader := .top
   calls : List Call := []
   panic : Option PanicKind := none
+  /-- Go's map iteration order in GetAllIDs is arbitrary: ids are visited in this priority
+      order, ids not listed in index order (the harness learns the order the run took) -/
+  closeOrder : List SubId := []
 deriving DecidableEq, Repr
 
 inductive Ev
@@ -136,6 +140,13 @@ def liveIds (f : Flags) (w : World) : List SubId :=
     | some s => s.registered && (!f.closeLiveOnly || !s.ended)
     | none => false
 
+/-- which of the remaining ids UnsubscribeAll visits next (Go map iteration order is arbitrary:
+    the first id of `closeOrder` that is still to do, else the smallest) -/
+def pick (order rest : List SubId) : SubId :=
+  match order.find? (rest.contains ·) with
+  | some i => i
+  | none => rest.headD 0
+
 def setCall (w : World) (c : Nat) (k : Call) : World := { w with calls := w.calls.set c k }
 
 /-- the atomic final section of Close -/
@@ -158,12 +169,12 @@ def stepCall (f : Flags) (w : World) (c : Nat) (writeOk : Bool) : Option World :
   | some k =>
     match k with
     | .subWrite i =>
-      if writeOk then some (setCall w c (.ret true))
+      if writeOk then some (setCall { w with written := w.written ++ [.subscribe i] } c (.ret true))
       else match getSub w i with
         | none => none
         | some s => some (setCall (setSub w i { s with registered := false }) c (.ret false))
     | .unsubWrite i =>
-      if writeOk then some (setCall w c (.unsubMap i)) else some (setCall w c (.ret false))
+      if writeOk then some (setCall { w with written := w.written ++ [.complete i] } c (.unsubMap i)) else some (setCall w c (.ret false))
     | .unsubMap i =>
       if !writeOk then none else
       match getSub w i with
@@ -180,10 +191,11 @@ def stepCall (f : Flags) (w : World) (c : Nat) (writeOk : Bool) : Option World :
       | [] =>
         if frameDone then some (setCall w c (.closeFinal acc))
         else some (setCall { w with frames := w.frames ++ [.close] } c (.closeFrameWrite none acc))
-      | i :: rest' =>
-        some (setCall { w with frames := w.frames ++ [.complete i] } c (.closeUnsubWrite i rest' acc frameDone))
+      | _ :: _ =>
+        let i := pick w.closeOrder rest
+        some (setCall { w with frames := w.frames ++ [.complete i] } c (.closeUnsubWrite i (rest.erase i) acc frameDone))
     | .closeUnsubWrite i rest acc frameDone =>
-      if writeOk then some (setCall w c (.closeUnsubMap i rest acc frameDone))
+      if writeOk then some (setCall { w with written := w.written ++ [.complete i] } c (.closeUnsubMap i rest acc frameDone))
       else some (setCall w c (closeAfterUnsub f rest acc frameDone false))
     | .closeUnsubMap i rest acc frameDone =>
       if !writeOk then none else
@@ -195,6 +207,7 @@ def stepCall (f : Flags) (w : World) (c : Nat) (writeOk : Bool) : Option World :
     | .closeFrameWrite todo acc =>
       -- the close frame was handed over; the write returns
       if writeOk then
+        let w := { w with written := w.written ++ [.close] }
         match todo with
         | none => some (setCall w c (.closeFinal acc))
         | some _ => some (setCall w c (.closeIds acc true))
@@ -261,11 +274,15 @@ def step (f : Flags) (w : World) : Ev → Option World
       | some s => if s.closes ≥ 1 then some { w with reader := .done, panic := w.panic.or (some (.sendOnClosed i)) } else none
       | none => none
     | .herr =>
+      -- handleErr: Lock; isClosing?  The lock is held from here to the end of the function.
       if w.mu then none
       else if w.isClosing then some { w with reader := .done }
-      else if f.errChanBuffered then some { w with errQueued := w.errQueued + 1, reader := .done }
       else some { w with mu := true, reader := .herrSend }
-    | .herrSend => none
+    | .herrSend =>
+      -- the send itself (under the lock): with capacity 1 it completes at once (the reader
+      -- sends at most one error); without buffer it waits for the application (`recvErr`)
+      if f.errChanBuffered then some { w with errQueued := w.errQueued + 1, mu := false, reader := .done }
+      else none
     | .done => none
   | .server m =>
     match w.reader with
@@ -285,9 +302,12 @@ def step (f : Flags) (w : World) : Ev → Option World
       else none
     | _ => none
   | .recvErr =>
-    match w.reader with
-    | .herrSend => some { w with mu := false, errReceived := w.errReceived + 1, reader := .done }
-    | _ => if w.errQueued ≥ 1 then some { w with errQueued := w.errQueued - 1, errReceived := w.errReceived + 1 } else none
+    if w.errQueued ≥ 1 then some { w with errQueued := w.errQueued - 1, errReceived := w.errReceived + 1 }
+    else match w.reader with
+      | .herrSend =>
+        if f.errChanBuffered then none
+        else some { w with mu := false, errReceived := w.errReceived + 1, reader := .done }
+      | _ => none
 
 /-- Is call `c` at a point where the real goroutine is parked inside a connection write (or has
     returned)?  Everything else is an internal action the goroutine runs through eagerly. -/
@@ -340,5 +360,41 @@ def run (f : Flags) (w : World) (evs : List Ev) : World :=
   evs.foldl (fun w e => if w.panic.isSome then w else (step f w e).getD w) w
 
 def init : World := {}
+
+end Genq.Ws
+
+namespace Genq.Ws
+
+/-! ### Start (sequential; runs before the reader exists) -/
+
+inductive ReadRes | ack | otherMsg | garbage | fail
+deriving DecidableEq, Repr
+
+structure StartRun where
+  ok : Bool
+  dialed : Bool
+  connCloses : Nat
+  readerSpawned : Bool
+  framesWritten : List Frame
+deriving DecidableEq, Repr
+
+/-- waitForConnAck over the scripted read results (time-out not modelled: reads are finite) -/
+def waitAck : List ReadRes → Bool
+  | [] => false                      -- the script ran out: treated as a failed read
+  | .ack :: _ => true
+  | .otherMsg :: rest => waitAck rest
+  | .garbage :: _ => false
+  | .fail :: _ => false
+
+def start (dialOk initOk : Bool) (reads : List ReadRes) : StartRun :=
+  if !dialOk then ⟨false, false, 0, false, []⟩
+  else if !initOk then ⟨false, true, 1, false, []⟩
+  else if !waitAck reads then ⟨false, true, 1, false, [.init]⟩
+  else ⟨true, true, 0, true, [.init]⟩
+
+/-- program counters that belong to a Close call -/
+def Call.isClose : Call → Bool
+  | .closeFrameWrite .. | .closeIds .. | .closeUnsubWrite .. | .closeUnsubMap .. | .closeNext .. | .closeFinal _ => true
+  | _ => false
 
 end Genq.Ws
